@@ -6,6 +6,7 @@ import (
 	"bytes"
 	stdjson "encoding/json"
 	"fmt"
+	"io"
 
 	"github.com/segmentio/encoding/json"
 )
@@ -100,6 +101,168 @@ func mReuse(seed uint64, viaDecoder bool) {
 	emit("m.reuse", args, impl, "ok")
 }
 
+// mDup: documents that REPEAT a key, and documents merged into a destination that already has the key: the value
+// decoded without zero-copy flags (keys included) must not share memory with the input: rendering it before and
+// after the input is overwritten (Unmarshal, Parse) or the Decoder has moved on to later values gives the same text,
+// and every key is still found by lookup.
+func mDup(seed uint64, via int) {
+	if !mine() {
+		skip()
+		return
+	}
+	args := fmt.Sprintf("%d %d", seed, via)
+	trace("m.dup", args)
+	r := &vrng{s: seed}
+	keys := []string{"alpha", "name", "k", "a-long-key-of-more-than-sixteen-bytes", r.str() + "x"}
+	obj := func(depth int) string { return "" }
+	var gen func(depth int) string
+	gen = func(depth int) string {
+		switch r.n(5) {
+		case 0:
+			return fmt.Sprint(r.n(1000))
+		case 1:
+			q, _ := stdjson.Marshal(r.str())
+			return string(q)
+		case 2:
+			if depth < 2 {
+				return "[" + gen(depth+1) + "," + gen(depth+1) + "]"
+			}
+			return "true"
+		default:
+			if depth >= 3 {
+				return "null"
+			}
+			o := "{"
+			n := 1 + r.n(4)
+			for i := 0; i < n; i++ {
+				k := keys[r.n(len(keys))]
+				if i > 0 {
+					o += ","
+					if r.n(2) == 0 {
+						k = keys[0] // repeated key
+					}
+				} else {
+					k = keys[0]
+				}
+				kq, _ := stdjson.Marshal(k)
+				o += string(kq) + ":" + gen(depth+1)
+			}
+			return o + "}"
+		}
+	}
+	_ = obj
+	doc1 := "{\"alpha\":" + gen(1) + ",\"alpha\":" + gen(1) + ",\"m\":" + gen(0) + "}"
+	doc2 := "{\"alpha\":\"new\",\"name\":" + gen(1) + "}"
+	filler := "\"" + string(bytes.Repeat([]byte("Z"), 70000)) + "\""
+	render := func(v any) string {
+		b, _ := stdjson.Marshal(v)
+		s := string(b)
+		// every key of every map is found by lookup
+		var walk func(x any) bool
+		walk = func(x any) bool {
+			switch t := x.(type) {
+			case map[string]any:
+				for k, e := range t {
+					if _, ok := t[string(append([]byte(nil), k...))]; !ok || !walk(e) {
+						return false
+					}
+				}
+			case []any:
+				for _, e := range t {
+					if !walk(e) {
+						return false
+					}
+				}
+			}
+			return true
+		}
+		if !walk(v) {
+			s += " KEY-NOT-FOUND-BY-LOOKUP"
+		}
+		return s
+	}
+	impl := guarded(func() string {
+		in1, in2 := []byte(doc1), []byte(doc2)
+		var v any
+		var m map[string]any
+		var want1, want2 any
+		var wantm map[string]any
+		stdjson.Unmarshal([]byte(doc1), &want1)
+		stdjson.Unmarshal([]byte(doc1), &wantm)
+		stdjson.Unmarshal([]byte(doc2), &wantm)
+		stdjson.Unmarshal([]byte(doc2), &want2)
+		switch via {
+		case 0, 1:
+			dec := func(b []byte, x any) error {
+				if via == 0 {
+					return json.Unmarshal(b, x)
+				}
+				_, err := json.Parse(b, x, json.DontCopyNumber|json.DontCopyRawMessage)
+				return err
+			}
+			if dec(in1, &v) != nil || dec(in1, &m) != nil || dec(in2, &m) != nil {
+				return "err"
+			}
+			b1, bm := render(v), render(m)
+			if b1 != render(want1) || bm != render(wantm) {
+				return "DIFFERS-FROM-STD " + b1 + " " + bm
+			}
+			for i := range in1 {
+				in1[i] = 'x'
+			}
+			for i := range in2 {
+				in2[i] = 'y'
+			}
+			if render(v) != b1 || render(m) != bm {
+				return "VALUE-CHANGED-WHEN-INPUT-WAS-OVERWRITTEN " + render(v) + " " + render(m)
+			}
+		default:
+			d := json.NewDecoder(iotestChunks([]byte(doc1+" "+doc2+" "+filler+" "+doc2+" "+filler), 1+int(seed%5000)))
+			if d.Decode(&v) != nil || d.Decode(&m) != nil {
+				return "err"
+			}
+			b1, bm := render(v), render(m)
+			if b1 != render(want1) || bm != render(want2) {
+				return "DIFFERS-FROM-STD " + b1 + " " + bm
+			}
+			var s string
+			var m2 map[string]any
+			if d.Decode(&s) != nil || d.Decode(&m2) != nil || d.Decode(&s) != nil {
+				return "err-later"
+			}
+			if render(v) != b1 || render(m) != bm {
+				return "VALUE-CHANGED-AFTER-LATER-DECODES " + render(v) + " " + render(m)
+			}
+		}
+		return "ok"
+	})
+	emit("m.dup", args, impl, "ok")
+}
+
+// iotestChunks delivers b in reads of at most n bytes
+type chunkReader struct {
+	b []byte
+	n int
+}
+
+func (c *chunkReader) Read(p []byte) (int, error) {
+	if len(c.b) == 0 {
+		return 0, io.EOF
+	}
+	n := c.n
+	if n > len(p) {
+		n = len(p)
+	}
+	if n > len(c.b) {
+		n = len(c.b)
+	}
+	copy(p, c.b[:n])
+	c.b = c.b[n:]
+	return n, nil
+}
+
+func iotestChunks(b []byte, n int) io.Reader { return &chunkReader{b: b, n: n} }
+
 func c10Reuse() {
 	n := 300
 	if *tier == "thorough" {
@@ -107,5 +270,6 @@ func c10Reuse() {
 	}
 	for i := 0; i < n; i++ {
 		mReuse(rnd(), i%2 == 1)
+		mDup(rnd(), i%3)
 	}
 }
